@@ -411,7 +411,10 @@ class HttpProtocolHandler(BaseTcpServerHandler[HttpClientConnection]):
                 if len(ev) == 0:
                     continue
                 self.work.flush(self.flags.max_sendbuf_size)
-        except BrokenPipeError:
+        except OSError:
+            # BrokenPipeError, ConnectionResetError ...  The client is gone,
+            # there is nobody left to flush to.  Never let this skip the
+            # connection close callbacks which follow in shutdown().
             pass
         finally:
             self.selector.unregister(self.work.connection)
